@@ -5,6 +5,7 @@ C03, source tie: the order of store writes inside one commit unit that the crash
 store before the tip moves, `reorgTo` flushes once at its end and returns the flush error.
 -/
 import Verif.Extracted.ChainSkel
+import Verif.Extracted.DBSkel
 
 namespace Verif.C03Src
 open Verif.Skel Verif.Extracted
@@ -32,5 +33,36 @@ theorem src_addblocks_state_before_block :
 /-- `revertTip`: store revert, then pool, then the tip -/
 theorem src_revertTip_order :
     firstBefore (isCall "m.store.RevertBlock") isSet skel_revertTip = true := by decide
+
+
+/-! ### the store's side of a commit unit (`chain/db.go`) -/
+
+/-- `applyState` / `revertState`: the best-chain index entry of the block is written / DELETED
+(not overwritten, not left behind) and the height marker moved -/
+theorem src_store_state_index :
+    skel_DBStore_applyState = [.call "db.putBestIndex" [], .call "db.putHeight" []] ∧
+    skel_DBStore_revertState = [.call "db.deleteBestIndex" [], .call "db.putHeight" []] := by decide
+
+def isRequireGuard : Tok → Bool
+  | .ifc ["db.n.HardforkV2.RequireHeight"] ["<="] => true
+  | _ => false
+
+/-- `ApplyBlock`: index first, elements only up to the v2 require height, then the time/size
+flush (a failed flush panics); `RevertBlock`: elements under the same guard, the index
+UNCONDITIONALLY (outside the guard), then the flush -/
+theorem src_store_apply_revert_block :
+    skel_DBStore_ApplyBlock = [.call "db.applyState" [], .ifc ["db.n.HardforkV2.RequireHeight"] ["<="],
+      .call "db.applyElements" [], .done, .call "db.shouldFlush" [], .ifc ["db.shouldFlush()"] [],
+      .call "db.Flush" [], .ifc [] ["!="], .panic, .done, .done] ∧
+    skel_DBStore_RevertBlock = [.ifc ["db.n.HardforkV2.RequireHeight"] ["<="], .call "db.revertElements" [], .done,
+      .call "db.revertState" [], .call "db.shouldFlush" [], .ifc ["db.shouldFlush()"] [],
+      .call "db.Flush" [], .ifc [] ["!="], .panic, .done, .done] ∧
+    guardedBy (isCall "db.revertState") isRequireGuard skel_DBStore_RevertBlock = false := by decide
+
+/-- `DBStore.Flush`: nothing to do when nothing is unflushed, else the backend's flush, the
+counters reset, the backend's error returned -/
+theorem src_store_flush :
+    skel_DBStore_Flush = [.ifc ["db.unflushed"] ["=="], .ret ["nil"], .done, .call "db.db.Flush" [],
+      .set "db.unflushed", .set "db.lastFlush", .ret ["E"]] := by decide
 
 end Verif.C03Src
